@@ -24,7 +24,7 @@ LEVEL_NOTE = "Tolerances 1e-9*h on depth identities; N = 1 has no level pair: in
 RULE = ("case = chunk of random parameter points; every point calls s_stretch (rho,w), sdepth (rho,w) and z2s for ~40 depths per column; some chunks build a real "
         "ROMS.Grid from a generated file and from Vinfo. Non-trivial point: N >= 2 and stretched (theta_s > 0.5); distinct by rounded parameters.")
 MANDATORY = ["post_s_stretch", "post_sdepth", "post_z2s", "vtransform1", "vtransform2", "vstretching1", "vstretching2", "vstretching4",
-             "depth_above_surface", "depth_below_bottom", "depth_on_level", "grid_from_file", "grid_from_vinfo", "N1"]
+             "depth_above_surface", "depth_below_bottom", "depth_on_level", "grid_from_file", "grid_from_vinfo", "N1", "vinfo_dictionary_reused"]
 ASSUMPTIONS = ["zeta = 0 (ladim ignores sea-surface elevation)", "Vtransform 1 only with hc <= min(h), as the property quantifies"]
 TIMEOUT = {"quick": 600, "thorough": 3000}
 
@@ -212,10 +212,12 @@ def run_case(case: dict[str, Any], wd: Path) -> dict[str, Any]:
                     vert=dict(Vtransform=p["Vtransform"], Vstretching=p["Vstretching"], theta_s=p["theta_s"], theta_b=p["theta_b"], hc=hc))
         w = W.write_world(wd / "w", spec)
         sub = [2, 7, 1, 6] if rng.random() < 0.5 else None
-        for label, kw in (("grid_from_file", dict()),
-                          ("grid_from_vinfo", dict(Vinfo=dict(N=p["N"], hc=hc, theta_s=p["theta_s"], theta_b=p["theta_b"],
-                                                               Vstretching=p["Vstretching"], Vtransform=p["Vtransform"])))):
-            g = guarded(f"ROMS.Grid ({label})", p, R.Grid, filename=str(w["gridfile"]), subgrid=sub, **kw)
+        vinfo = dict(N=p["N"], hc=hc, theta_s=p["theta_s"], theta_b=p["theta_b"], Vstretching=p["Vstretching"], Vtransform=p["Vtransform"])
+        vinfo_before = dict(vinfo)
+        # the same Vinfo dictionary is used for several Grids (whole grid, then a subgrid): they must describe the same levels
+        for label, kw, sub_ in (("grid_from_file", dict(), sub), ("grid_from_vinfo", dict(Vinfo=vinfo), sub),
+                                ("grid_from_vinfo_again", dict(Vinfo=vinfo), [2, 7, 1, 6] if sub is None else None)):
+            g = guarded(f"ROMS.Grid ({label})", p, R.Grid, filename=str(w["gridfile"]), subgrid=sub_, **kw)
             if g is None:
                 continue
             bump(label)
@@ -231,6 +233,13 @@ def run_case(case: dict[str, Any], wd: Path) -> dict[str, Any]:
             zr_ref = w["G"]["zr"][:, g.J, g.I]
             if label == "grid_from_file" and np.max(np.abs(g.z_r - zr_ref)) > 1e-9 * hmax:
                 V.append(C.viol(f"{label}: z_r differs from the levels implied by the file (max {np.max(np.abs(g.z_r - zr_ref))})", params=p))
+            if label.startswith("grid_from_vinfo"):
+                # Vinfo repeats the file's own vertical set-up here, so the levels must be the file's (to rounding of the two stretching implementations)
+                if p["Vstretching"] in (1, 4) and np.max(np.abs(g.z_r - zr_ref)) > 1e-6 * hmax:
+                    V.append(C.viol(f"{label}: z_r of a Grid built from Vinfo differs from the levels of the same vertical set-up (max {np.max(np.abs(g.z_r - zr_ref)):.4g} m)", params=p))
+                if vinfo != vinfo_before:
+                    V.append(C.viol(f"{label}: building a Grid changed the caller's Vinfo dictionary: {vinfo} (was {vinfo_before})", params=p))
+                bump("vinfo_dictionary_reused")
             jj, ii = int(rng.integers(H.shape[0])), int(rng.integers(H.shape[1]))
             Z = _depths(rng, g.z_r[:, jj, ii], float(H[jj, ii]))
             guarded("z2s on Grid.z_r", p, R.z2s, g.z_r, np.full(len(Z), float(ii)), np.full(len(Z), float(jj)), Z)
